@@ -231,7 +231,7 @@ macro_rules! c12_script {
         }
     };
 }
-//@ h=c12_script props=C12 cfgs=K1 tier=q t=1800 native=native_c12_scripts | funcs: generate_easy_std::hash_stream_common<R, G> (generic read loop), From<io::Error>/From<GeneratorError> for GeneratorOrIOError | bound: all reader scripts of <= 4 steps over {deliver n (1<=n<=1 MiB, symbolic), Interrupted, hard error of 4 kinds, EOF} + final EOF; recording generator with arbitrary finalize result; updates == delivered prefixes of the helper's buffer in order, one finalize with default options, first hard error returned as IOError | stubs: reader and generator are mocks (caller-supplied trait impls); buffer contents are not inspected
+//@ h=c12_script props=C12,C17 cfgs=K1 tier=q t=1800 native=native_c12_scripts | funcs: generate_easy_std::hash_stream_common<R, G> (generic read loop), From<io::Error>/From<GeneratorError> for GeneratorOrIOError | bound: all reader scripts of <= 4 steps over {deliver n (1<=n<=1 MiB, symbolic), Interrupted, hard error of 4 kinds, EOF} + final EOF; recording generator with arbitrary finalize result; updates == delivered prefixes of the helper's buffer in order, one finalize with default options, first hard error returned as IOError | stubs: reader and generator are mocks (caller-supplied trait impls); buffer contents are not inspected
 c12_script!(c12_script, true);
 //@ h=c12_script_nointr props=C12 cfgs=K1 tier=q t=1800 native=native_c12_scripts | funcs: generate_easy_std::hash_stream_common | bound: as c12_script without Interrupted steps (isolates the transient-interruption clause) | stubs: mock reader/generator
 c12_script!(c12_script_nointr, false);
